@@ -44,14 +44,16 @@ type Faults struct {
 	// OpenErr / ReadErr: path (absolute) -> errno name.
 	OpenErr map[string]string `json:"open_err,omitempty"`
 	ReadErr map[string]string `json:"read_err,omitempty"`
-	// RemoveErr: the n-th (0-based) removal asked for by --clean fails; -1 = never.
-	RemoveErr int `json:"remove_err"`
+	// RemoveErrPath: the removal of this absolute path asked for by --clean fails
+	// (identified by path, not by position: the order of removals follows Go map
+	// iteration inside spok, which no simulator can seed).
+	RemoveErrPath string `json:"remove_err_path,omitempty"`
 	// Budgets: counter site -> maximum number of calls (bounded liveness).
 	Budgets map[string]int `json:"budgets,omitempty"`
 }
 
 // NoFaults is the empty plan.
-func NoFaults() Faults { return Faults{CrashAt: -1, TearWrite: -1, RemoveErr: -1} }
+func NoFaults() Faults { return Faults{CrashAt: -1, TearWrite: -1} }
 
 var errnoByName = map[string]error{
 	"ENOENT": syscall.ENOENT,
@@ -81,20 +83,20 @@ type Invocation struct {
 
 // Obs is everything observable about an invocation.
 type Obs struct {
-	Failed  bool   // Execute returned an error (the real main would exit 1)
-	ErrText string // that error
-	Stdout  string
-	Stderr  string
-	Out     RunOutcome
-	Crashed string     // non-empty: killed at this crash point
-	Points  []PointRec // crash points passed, in order (writes carry their length)
-	Counts  map[string]int
-	Trace   []string // scheduler picks
-	Perms   []string // dag permutations drawn
-	Picks   []int    // all choices, for explicit replay
-	Vetoed  []string // removals refused by the safety veto
-	Removed []string // removals --clean asked for (after veto)
-	Fired   []string // faults that actually fired
+	Failed   bool   // Execute returned an error (the real main would exit 1)
+	ErrText  string // that error
+	Stdout   string
+	Stderr   string
+	Out      RunOutcome
+	Crashed  string     // non-empty: killed at this crash point
+	Points   []PointRec // crash points passed, in order (writes carry their length)
+	Counts   map[string]int
+	Trace    []string // scheduler picks
+	Perms    []string // dag permutations drawn
+	Picks    []int    // all choices, for explicit replay
+	Vetoed   []string // removals refused by the safety veto
+	Removed  []string // removals --clean asked for (after veto)
+	Fired    []string // faults that actually fired
 	HashLeak bool
 }
 
@@ -105,7 +107,6 @@ type hookState struct {
 	points   []PointRec
 	nPoints  int
 	nWrites  int
-	nRemoves int
 	counts   map[string]*atomic.Int64
 	vetoed   []string
 	removed  []string
@@ -209,9 +210,7 @@ func (h *hookState) remove(site, path string) error {
 		h.vetoed = append(h.vetoed, clean)
 		return errVeto
 	}
-	n := h.nRemoves
-	h.nRemoves++
-	if h.f.RemoveErr == n {
+	if h.f.RemoveErrPath != "" && h.f.RemoveErrPath == clean {
 		h.fired = append(h.fired, "remove-EACCES")
 		return &os.PathError{Op: "unlinkat", Path: path, Err: syscall.EACCES}
 	}
